@@ -56,7 +56,7 @@ def dispatch (c : Conf) (op : String) (args : List String) (got : String) : Opti
     | some e => C11.handle e c.w op args got
     | none => none) <|> (match c.pc with
     | some e => C12.handle e c.w op args got
-    | none => none) <|> (C06.handle c.w c.cp c.ep op args got) <|> (match c.map with
+    | none => none) <|> (C06.handle c.cp c.ep op args got) <|> (match c.map with
     | some e => C13.handle e c.size c.w op args got
     | none => none) <|> (match c.ebmap with
     | some e => C13.Eb.handle e op args
